@@ -837,7 +837,10 @@ def describe(f, o, depth=10, through=TRANSPARENT):
                 return "%s(%s,%s)" % (rv[1], describe(f, rv[2], depth - 3, through), describe(f, rv[3], depth - 3, through))
             return rv[1]
         if rv[0] == "agg":
-            return "agg:%s%s" % (rv[1].rsplit("::", 1)[-1], ("::" + rv[2]) if rv[2] else "")
+            head = "agg:%s%s" % (rv[1].rsplit("::", 1)[-1], ("::" + rv[2]) if rv[2] else "")
+            if rv[3] and depth > 3:
+                return head + "(" + ",".join(describe(f, x, depth - 3, through) for x in rv[3]) + ")"
+            return head
         if rv[0] == "disc":
             return "disc(%s)" % describe_place(f, rv[1])
         return rv[0]
